@@ -27,7 +27,16 @@
 
 #define V_MAXLEN 0x3fffffffu
 
+#if defined(VMODE_CONTRACT) || defined(VNATIVE)
 extern uint8_t yr_lowercase[256];
+#else
+/* the table yr_initialize() builds (proved in C01.libyara.casetables) */
+#define LC(i) ((i) >= 'A' && (i) <= 'Z' ? (i) + 32 : (i))
+#define LC4(i) LC(i), LC(i + 1), LC(i + 2), LC(i + 3)
+#define LC16(i) LC4(i), LC4(i + 4), LC4(i + 8), LC4(i + 12)
+#define LC64(i) LC16(i), LC16(i + 16), LC16(i + 32), LC16(i + 48)
+uint8_t yr_lowercase[256] = {LC64(0), LC64(64), LC64(128), LC64(192)};
+#endif
 
 /* variant semantics: byte k of the string is present at data */
 #define M_compare(d, s, n, K) FORALL(size_t, q1, 0, n, (d)[q1] == (s)[q1])
